@@ -57,6 +57,20 @@ class Disk:
         # transient I/O error: the n-th tracked directory listing of the operation raises OSError(EMFILE)
         self.listings = 0
         self.ioerr_at: typing.Optional[int] = None
+        # directory entries come back in an order the file system picks (hash order on ext4, creation order on
+        # tmpfs): here it is a seeded permutation, a function of (seed, listing number of the operation, path)
+        self.order_seed: typing.Optional[int] = None
+        self.permuted = 0
+
+    def permute(self, path, names: list) -> list:
+        if self.order_seed is None or len(names) < 2:
+            return names
+        import random  # pylint: disable=import-outside-toplevel
+
+        names = sorted(names, key=lambda n: n if isinstance(n, (str, bytes)) else n.name)
+        random.Random(f'{self.order_seed}/{self.listings}/{self.rel(path)}').shuffle(names)
+        self.permuted += 1
+        return names
 
     # -- per operation -----------------------------------------------------------------------
     def begin(self, crash: typing.Optional[dict], pause: typing.Optional[dict] = None) -> None:
@@ -216,11 +230,35 @@ def install(disk: Disk) -> None:
     def listdir(path='.'):
         if disk.tracked(path):
             disk.listing_point(path)
+            return disk.permute(path, REAL['listdir'](path))
         return REAL['listdir'](path)
+
+    class ScanDir:
+        """What os.scandir returns (iterator + context manager) over a seeded permutation of the entries."""
+
+        def __init__(self, entries):
+            self._it = iter(entries)
+
+        def __iter__(self):
+            return self
+
+        def __next__(self):
+            return next(self._it)
+
+        def close(self):
+            self._it = iter(())
+
+        def __enter__(self):
+            return self
+
+        def __exit__(self, *exc):
+            self.close()
 
     def scandir(path='.'):
         if disk.tracked(path):
             disk.listing_point(path)
+            with REAL['scandir'](path) as real:
+                return ScanDir(disk.permute(path, list(real)))
         return REAL['scandir'](path)
 
     os.listdir = listdir
